@@ -287,6 +287,105 @@ class RandomTree:
         return res, (hmut or mut)
 
 
+    def adopt(self, blk):
+        """A block that did not come from this generator (assembled by the node itself) was stored: build on it too."""
+        bid = self.next_id
+        self.w.by_abs[bid] = blk
+        self.stored.append(bid)
+        self.ts[bid] = blk.header.summary.timestamp
+        self.height[bid] = blk.header.summary.height
+        for pos, t in enumerate(blk.transactions):
+            self._index_tx(bid * 10 + pos, t)
+            self.w.tx_by_abs[bid * 10 + pos] = t
+        self.next_id += 1
+        return bid
+
+
+class _Clock:
+    def __init__(self):
+        self.t = 0
+
+    def __call__(self):
+        return self.t
+
+
+def assembly_batch(n, nsteps, cfg, keys, rng, tid0):
+    """C05, last sentence: the node's own block assembly -- MinerWatcher.handle_request_scrypt_input_message (timestamp choice) ->
+    construct_block_pow_evidence_input (height, target, reward transaction, merkle root) -> construct_summary_hash ->
+    construct_pow_evidence_after_scrypt -- on random valid header trees that cross retarget boundaries on both sides of forks, for clock
+    values around the head's timestamp.  Every candidate whose id is below its target is offered to CoinState.add_block and recorded
+    with assembled=TRUE: TraceLedger judges every header rule on it, whatever the node answered."""
+    import skepticoin.mining as mining
+    import skepticoin.consensus as c
+    from skepticoin.datatypes import Block, BlockHeader
+    clock = _Clock()
+    saved_time = mining.time
+    mining.time = clock
+    traces, recs, stats = [], [], {"found": 0, "not_found": 0, "accepted": 0}
+    try:
+        for i in range(n):
+            w = sk.World(cfg, keys, tag=b"a%d" % i)
+            rec = ledger_drv.Recorder(w, tid0 + i, full=False)
+            g = w.make_genesis()
+            rec.start(g)
+            rt = RandomTree(w, rec, rng, nkeys=3, p_mut=0.0, hdr=True)
+
+            class CM:
+                def get_state(self_):
+                    return rec.cs, []
+
+            class LP:
+                chain_manager = CM()
+
+            class NT:
+                local_peer = LP()
+
+            class Q:
+                def put(self_, x):
+                    pass
+            mw = mining.MinerWatcher.__new__(mining.MinerWatcher)
+            mw.network_thread = NT()
+            mw.send_queues = [Q()]
+            mw.mining_args = {}
+            mw.public_key = keys.pub[1 + i % 3]
+            mw.coinstate = rec.cs
+            limit_case = (i % 5 == 4)             # the known situation (head at the validator's future limit) only as a trace's last step
+            for step in range(nsteps):
+                last = step == nsteps - 1
+                if step < 2 or (rng.random() < 0.4 and not last):
+                    rt.step()
+                    continue
+                head = rec.cs.head()
+                off = rng.choice([-31, -30]) if (limit_case and last) else rng.choice([-29, -20, -5, -2, -1, 0, 0, 1, 2, 3, 7, 50, 400])
+                clock.t = head.timestamp + off
+                found = None
+                n0 = rng.randrange(1 << 20)
+                for nonce in range(n0, n0 + 48):
+                    mw.handle_request_scrypt_input_message(0, nonce)
+                    summary, height, txs = mw.mining_args[0]
+                    sh = c.construct_summary_hash(summary, height)
+                    ev = c.construct_pow_evidence_after_scrypt(sh, mw.coinstate, summary, height, txs)
+                    blk = Block(BlockHeader(summary, ev), txs)
+                    if blk.hash() < summary.target:
+                        found = blk
+                        break
+                if found is None:
+                    stats["not_found"] += 1
+                    continue
+                stats["found"] += 1
+                res = rec.add(found, clock.t, validated=True, assembled=True,
+                              label={"act": "assembled", "mut": "", "clock_minus_head_ts": off, "height": found.height,
+                                     "head_at_future_limit": head.timestamp >= clock.t + cfg.max_future})
+                if res == "ok":
+                    stats["accepted"] += 1
+                    rt.adopt(found)
+            traces.append(rec.trace())
+            recs.append(rec)
+    finally:
+        mining.time = saved_time
+    return traces, recs, stats
+
+
 # ------------------------------------------------------------------------------------------------
 
 NONTRIVIAL = {
@@ -319,7 +418,8 @@ def judge(chk, traces, recs, cfg, focus, known=None, workers=4):
         chk.violation(clause, {"trace_id": tid, "failing_event": line, "abstract_steps": rec.abstract,
                                "event": ev, "config": cfg.__dict__ if hasattr(cfg, "__dict__") else str(cfg),
                                "blocks_hex": [b.serialize().hex() for b in getattr(rec, "concrete", [])][:40]},
-                      {"clause": clause, "mut": (rec.abstract[line - 1] or {}).get("mut", "")})
+                      {"clause": clause, "mut": (rec.abstract[line - 1] or {}).get("mut", ""),
+                       "head_at_future_limit": bool((rec.abstract[line - 1] or {}).get("head_at_future_limit", False))})
     for dft in drifts:
         chk.model_drift("trace %s event %s: model predicted %r, implementation %s/%r" % (dft[0], dft[1], dft[2], dft[3], dft[4]))
 
@@ -572,8 +672,24 @@ def run(pid, tier, replay=None):
             chk.case(json.dumps(rec.abstract), nontrivial=True)
         chk.extra["random_driver_mutations_period2"] = {"%s/%s" % k: v for k, v in sorted(muts2.items())}
         judge(chk, traces, recs, cfg_hdr2, focus)
+        # the node's own block assembly (last sentence of C05), periods 3 and 2
+        astats = {}
+        for cfg_a, nm in ((cfg_hdr, "period3"), (cfg_hdr2, "period2")):
+            sk.apply_cfg(cfg_a)
+            traces, recs, st = assembly_batch(25 if quick else 250, 16, cfg_a, keys, rng, tid)
+            tid += len(traces)
+            astats[nm] = st
+            for rec in recs:
+                chk.case(json.dumps(rec.abstract), nontrivial=any(l and l.get("act") == "assembled" and l["height"] % cfg_a.period == 0 for l in rec.abstract))
+            judge(chk, traces, recs, cfg_a, focus)
+            if st["found"] < 20:
+                return machinery_failure(pid, "assembly stage (%s) found only %d blocks" % (nm, st["found"]))
+        chk.extra["assembly_stage"] = astats
+        chk.sample({"source": "node's own block assembly on a random header tree", "steps": recs[0].abstract})
         chk.extra["rule"] = ("header-only behaviours with period 3 / timespan 4 crossing retarget boundaries on forks, every single "
-                             "header rule broken; non-trivial = an accepted block sits on a retarget boundary")
+                             "header rule broken; non-trivial = an accepted block sits on a retarget boundary; plus blocks assembled by the "
+                             "node's own miner path (MinerWatcher request handler + consensus constructors) on such trees for clock values "
+                             "-31..+400 s around the head's timestamp, each judged against every header rule")
     else:
         return machinery_failure(pid, "unknown property for the ledger family")
 
